@@ -50,6 +50,7 @@ type item struct {
 	Write  bool
 	Block  int // 0 = plain command, k>0 = member of (or MULTI / EXEC of) block k
 	Role   string
+	Note   string // mixed-redirect cases: moved | ask | plain
 	Result rueidis.RedisResult
 }
 
@@ -549,6 +550,62 @@ func (w *world) injectFaults(rng *rand.Rand, spec *caseSpec, items []item) {
 	sort.Strings(spec.Faults)
 }
 
+// genMixedRedirect: one retry round in which ONE node receives both MOVED-redirected and ASK-redirected members of the
+// batch (slots of the first kind were reassigned to it behind the client's back, slots of the second kind are being
+// migrated to it and the keys are not on the source), and that node's connection dies once at a MOVED-redirected
+// member, before executing it. The ASK-redirected members are served normally by the target: their results must be
+// their own replies.
+func (w *world) genMixedRedirect(rng *rand.Rand, spec *caseSpec) []item {
+	target := w.prims[rng.Intn(len(w.prims))]
+	var movedTags, askTags, plainTags []string
+	var movedSlots, askSlots, plainSlots []int
+	for len(movedTags) < 1+rng.Intn(2) || len(askTags) < 1+rng.Intn(2) || len(plainTags) < 1 {
+		t := fmt.Sprintf("m%d", rng.Intn(1<<24))
+		s := fakeredis.Slot(t)
+		if w.srv.SlotOwner(s) == target {
+			if len(plainTags) < 1 {
+				plainTags, plainSlots = append(plainTags, t), append(plainSlots, s)
+			}
+			continue
+		}
+		if len(movedTags) <= len(askTags) {
+			movedTags, movedSlots = append(movedTags, t), append(movedSlots, s)
+		} else {
+			askTags, askSlots = append(askTags, t), append(askSlots, s)
+		}
+	}
+	var items []item
+	add := func(tags []string, slots []int, n int, role string) {
+		for k := 0; k < n; k++ {
+			i := rng.Intn(len(tags))
+			items = append(items, item{UID: newUID(), Key: fmt.Sprintf("{%s}k%d", tags[i], rng.Intn(4)), Slot: slots[i], Write: rng.Intn(3) == 0, Role: "cmd", Note: role})
+		}
+	}
+	add(movedTags, movedSlots, 1+rng.Intn(5), "moved")
+	add(askTags, askSlots, 1+rng.Intn(5), "ask")
+	add(plainTags, plainSlots, rng.Intn(3), "plain")
+	rng.Shuffle(len(items), func(i, j int) { items[i], items[j] = items[j], items[i] })
+	for _, s := range movedSlots {
+		w.srv.SetSlotOwner(s, s, target)
+	}
+	for _, s := range askSlots {
+		w.srv.Migrate(s, target)
+	}
+	var moved []string
+	for _, it := range items {
+		if it.Note == "moved" {
+			moved = append(moved, it.UID)
+		}
+	}
+	victim := moved[rng.Intn(len(moved))]
+	w.srv.Plan(&fakeredis.Rule{Name: "target-dies-once", Times: 1, Action: fakeredis.Action{Close: true},
+		Match: func(c *fakeredis.Conn, a []string) bool { return c.NodeAddr() == target && uidOf(a) == victim }})
+	spec.N, spec.Slots, spec.Blocks = len(items), len(movedSlots)+len(askSlots)+1, 0
+	spec.Faults = []string{"moved+ask-to-one-node", "transport-at-moved-member-on-target"}
+	spec.Transport = true
+	return items
+}
+
 // runBatch issues the batch and fills the results; false when the call did not return (bubble runs only).
 func (w *world) runBatch(spec *caseSpec, items []item, wait func(done chan struct{}) bool) (ok bool, n int) {
 	c := w.client
@@ -860,10 +917,7 @@ func evaluate(run *mon.Run, spec *caseSpec, items []item, nres int, events []fak
 				continue // the last reception got no reply (connection died)
 			}
 			if val+errStr != want {
-				if spec.Transport && errStr != "" {
-					run.Observe("transport_errors_returned", 1)
-					continue
-				}
+				// (client-made errors were dealt with above: what is left is a server reply that is not this command's last one)
 				run.Violation("result-not-own-last-reply", fkey("plain"), w1(map[string]any{"expected": want}))
 				continue
 			}
@@ -878,6 +932,9 @@ func evaluate(run *mon.Run, spec *caseSpec, items []item, nres int, events []fak
 			run.Observe("results_checked", 1)
 			if len(hs) > 1 {
 				run.Observe("results_of_resent_commands_checked", 1)
+			}
+			if it.Note == "ask" {
+				run.Observe("ask_members_own_reply_after_target_connection_died", 1)
 			}
 		}
 	}
@@ -918,8 +975,13 @@ func oneCase(run *mon.Run, spec caseSpec) {
 		return
 	}
 	defer w.close()
-	items := genBatch(rng, &spec)
-	w.injectFaults(rng, &spec, items)
+	var items []item
+	if spec.Kind == "DoMulti" && spec.Shards >= 3 && rng.Intn(6) == 0 {
+		items = w.genMixedRedirect(rng, &spec)
+	} else {
+		items = genBatch(rng, &spec)
+		w.injectFaults(rng, &spec, items)
+	}
 	var nres int
 	var pnc any
 	func() {
@@ -974,5 +1036,6 @@ func TestC20(t *testing.T) {
 	wg.Wait()
 	lifetimeCases(run, t)
 	run.Require("results_checked", "exec_arrays_checked", "units_complete", "blocks_resent_whole_on_moved", "blocks_resent_whole_on_ask", "plain_redirects_followed",
-		"results_of_resent_commands_checked", "units_cut_by_connection_end", "transport_errors_returned", "lifetime_expired_mid_batch")
+		"results_of_resent_commands_checked", "units_cut_by_connection_end", "transport_errors_returned", "lifetime_expired_mid_batch",
+		"ask_members_own_reply_after_target_connection_died")
 }
